@@ -28,6 +28,19 @@ Theorem c14_inflight : forall W wzero fexpr fsqrt start order s0 ops i c,
 Proof. exact inflight_run. Qed.
 Print Assumptions c14_inflight.
 
+(* ... in particular: a history that calls no done func twice never drives an in-flight count negative. *)
+Theorem c14_inflight_nonneg : forall W wzero fexpr fsqrt start order s0 ops i c,
+  build start order = Some s0 ->
+  (forall k, done_calls_of W k ops <= 1) ->
+  nth_error (conns (run W wzero fexpr fsqrt s0 ops)) i = Some c ->
+  0 <= inflight c.
+Proof.
+  intros W wzero fexpr fsqrt start order s0 ops i c Hb Ho Hn.
+  destruct (inflight_run W wzero fexpr fsqrt start order s0 ops i c Hb Hn) as (_ & H). apply H.
+  apply once_ledger. exact Ho.
+Qed.
+Print Assumptions c14_inflight_nonneg.
+
 (* The success score stays within [0, 1000] -- for ANY value of the float expression (ewma clamps). *)
 Theorem c14_success_range : forall W wzero fexpr fsqrt start order s0 ops i c,
   build start order = Some s0 ->
@@ -160,6 +173,29 @@ Theorem c14_two_conn_no_starvation_step : forall fsqrt s d i id u s',
 Proof. exact two_conn_step. Qed.
 Print Assumptions c14_two_conn_no_starvation_step.
 
+(* With at least one ready connection and draws in the range Intn produces, Pick never panics and never
+   fails: it returns a connection (which is ready by c14_pick_is_ready). *)
+Theorem c14_pick_total : forall fsqrt s d,
+  conns s <> [] ->
+  ((3 <= List.length (conns s))%nat ->
+   (3 <= List.length d)%nat /\ Forall (draw_ok (List.length (conns s))) (firstn 3 d)) ->
+  exists i id u s', pick fsqrt s d = Ok (i, id, u, s').
+Proof. exact pick_total. Qed.
+Print Assumptions c14_pick_total.
+
+(* Concurrent callers: the done func is a sequence of atomic operations; for EVERY interleaving (schedule)
+   of any number of Picks and done funcs on a connection, with arbitrary raw float values v:
+   in-flight = picks - done funcs begun, and the score stays within [0, 1000] (lost updates included). *)
+Theorem c14_conc_inflight : forall sched s',
+  crun cinit sched = Some s' -> k_inflight s' = count_pick sched - count_begin sched.
+Proof. intros sched s' H. rewrite (conc_inflight sched cinit s' H). reflexivity. Qed.
+Print Assumptions c14_conc_inflight.
+
+Theorem c14_conc_success_range : forall sched s',
+  targets_ok sched -> crun cinit sched = Some s' -> 0 <= k_success s' <= 1000.
+Proof. intros sched s' Ht H. exact (proj1 (conc_score sched cinit s' Ht cinv_init H)). Qed.
+Print Assumptions c14_conc_success_range.
+
 (* ---------------- non-vacuity: the hypotheses are satisfiable and the conclusions bite ---------------- *)
 Definition ex_run (order : list nat) (ops : list (op Q)) : option st :=
   option_map (fun s0 => run Q 0%Q fexprQ Z.sqrt s0 ops) (build 3600000000000 order).
@@ -205,3 +241,17 @@ Example c14_nonvacuous_all_fail :
   | None => False
   end.
 Proof. vm_compute. repeat split; try reflexivity; intro H; discriminate H. Qed.
+
+(* an interleaving of two done funcs in which the first one's failure is lost (both load 1000, the success
+   store comes last): the schedule is executable, the theorems apply to it *)
+Definition ex_sched : list lbl :=
+  [LPick; LPick; LBegin; LBegin; LLoadLag 0; LLoadLag 1; LStoreLag 0 5 5; LStoreLag 1 7 7;
+   LLoadSucc 0; LLoadSucc 1; LStoreSucc 0 0 300; LStoreSucc 1 1000 1000].
+Example c14_nonvacuous_interleaving :
+  targets_ok ex_sched /\
+  option_map (fun s => [k_inflight s; k_lag s; k_success s]) (crun cinit ex_sched) = Some [0; 7; 1000].
+Proof.
+  split.
+  - intros t tg v Hin. cbn in Hin. repeat (destruct Hin as [Hin|Hin]; [inversion Hin; subst; lia|]). destruct Hin.
+  - vm_compute. reflexivity.
+Qed.
